@@ -107,11 +107,7 @@ def oracle_decode(codec, alphabet, data, mode):
     while i < len(data):
         b = data[i]
         if b == 0x1B:
-            j = i + 1
-            while j < len(data) and data[j] == 0x1B:
-                j += 1    # repeated escapes: outside the property text, skip judging
-            if j > i + 1:
-                return None
+            j = i + 1        # the code after the escape - whatever it is, the escape code itself included (no extension entry: placeholder)
             if j >= len(data):
                 if mode == 'strict':
                     fail = True
